@@ -133,6 +133,58 @@ func driveBigLists(t *Tracer, r Rng, n int) {
 		} else {
 			emitLaw(t, "BigListIsUnionOfChunks", map[string]any{"fn": o.name, "entries": len(big)}, digestSet(whole, err1), digestSet(uniqueStrings(parts), err2), "")
 		}
+		// MANY inputs onto ONE output (hundreds of thousands of voxels inside one coarse voxel, tens of thousands of
+		// copies of one key / tile): the answer is that of the single coarse voxel / key / tile
+		{
+			A := parents[r.Intn(len(parents))]
+			A.H, A.X, A.Y, A.V, A.F = A.H-6, A.X>>6, A.Y>>6, A.V-6, A.F>>6
+			var desc []string // all 2^18 descendants six levels down
+			for x := int64(0); x < 64; x++ {
+				for y := int64(0); y < 64; y++ {
+					for f := int64(0); f < 64; f++ {
+						desc = append(desc, ID{A.H + 6, A.X<<6 + x, A.Y<<6 + y, A.V + 6, A.F<<6 + f}.String())
+					}
+				}
+			}
+			one := []string{A.String()}
+			emitLaw(t, "ManyToOne", map[string]any{"fn": "ChangeExtendedSpatialIdsZoom", "inputs": len(desc)},
+				digestSet(integrate.ChangeExtendedSpatialIdsZoom(desc, A.H, A.V)), digestSet(one, nil), "")
+			qk := func(in []string) ([]string, error) {
+				g, err := transform.ConvertExtendedSpatialIDsToQuadkeysAndVerticalIDs(in, A.H, A.V, 0, 0)
+				return pairStrings(g), err
+			}
+			if A.H >= 1 {
+				emitLaw(t, "ManyToOne", map[string]any{"fn": "ConvertExtendedSpatialIDsToQuadkeysAndVerticalIDs", "inputs": len(desc)},
+					digestList(qk(desc)), digestList(qk(one)), "")
+				copies := make([]string, 70000)
+				for i := range copies {
+					copies[i] = desc[len(desc)/2]
+				}
+				emitLaw(t, "ManyToOne", map[string]any{"fn": "ConvertExtendedSpatialIDsToQuadkeysAndVerticalIDs (copies)", "inputs": len(copies)},
+					digestList(qk(copies)), digestList(qk(copies[:1])), "")
+				emitLaw(t, "ManyToOne", map[string]any{"fn": "MergeExtendedSpatialIds (copies)", "inputs": len(copies)},
+					digestSet(integrate.MergeExtendedSpatialIds(copies, A.H+6, A.V+6)), digestSet(copies[:1], nil), "")
+				emitLaw(t, "ManyToOne", map[string]any{"fn": "GetNspatialIdsAroundVoxcels (copies)", "inputs": len(copies)},
+					digestSet(operated.GetNspatialIdsAroundVoxcels(copies, 1, 1)), digestSet(operated.GetNspatialIdsAroundVoxcels(copies[:1], 1, 1)), "")
+			}
+			tile, terr := object.NewTileXYZ(A.H+6, A.X<<6, A.Y<<6, 25, 77)
+			if terr == nil {
+				tiles := make([]*object.TileXYZ, 70000)
+				for i := range tiles {
+					tiles[i] = tile
+				}
+				ts := func(in []*object.TileXYZ) ([]string, error) {
+					res, err := transform.ConvertTileXYZsToExtendedSpatialIDs(in, 25, 0, 25)
+					out := make([]string, len(res))
+					for i, x := range res {
+						out[i] = x.ID()
+					}
+					return out, err
+				}
+				emitLaw(t, "ManyToOne", map[string]any{"fn": "ConvertTileXYZsToExtendedSpatialIDs (copies)", "inputs": len(tiles)},
+					digestList(ts(tiles)), digestList(ts(tiles[:1])), "")
+			}
+		}
 		// point lookup on a long list keeps length and order
 		pts := make([]*object.Point, 0, 300000)
 		for i := 0; i < 300000; i++ {
